@@ -186,10 +186,11 @@ fn gen_case(tape: Vec<u8>) -> Case {
     collect(&model.graph, &Ty::Struct(model.primary.clone()), &model.message, &mut vec![Step::Key("message".into())], &mut positions);
     collect(&model.graph, &Ty::Struct("EIP712Domain".into()), &model.domain, &mut vec![Step::Key("domain".into())], &mut positions);
     // prefer the kind of mutation first, then a position that admits it, so that every kind is frequent
-    let kind = [0, 1, 2, 3, 3, 4, 4, 4, 5, 6, 7, 8, 9, 10, 11, 12, 12, 13][u.below(18)];
+    let kind = [0, 1, 2, 3, 3, 4, 4, 4, 5, 6, 7, 8, 9, 10, 11, 12, 12, 13, 14][u.below(19)];
     let admits = |p: &Pos| -> bool {
         match kind {
             12 | 13 => matches!(p.ty, Ty::Struct(_)),
+            14 => matches!(p.ty, Ty::Uint(_) | Ty::Int(_)) && matches!(p.path.last(), Some(Step::Key(_))) && p.path.first() == Some(&Step::Key("message".into())) && p.path.len() >= 2,
             0..=2 => matches!(p.ty, Ty::Uint(_) | Ty::Int(_)),
             3 => matches!(p.ty, Ty::BytesN(_)),
             4 => matches!(p.ty, Ty::Array(_, Some(_))),
@@ -256,6 +257,46 @@ fn gen_case(tape: Vec<u8>) -> Case {
             }
         }
         return Case { doc: doc.render_styled(style), model: None, mutation: "undeclared-member".into(), ty: tyname, depth, detail: format!("{extras} undeclared next to {dups} duplicated declarations of {sname}"), lenient: false };
+    }
+    if kind == 14 {
+        // an integer type of width 0 (or another width that is not 8..256 in steps of 8) is not a type: the
+        // member then refers to an undefined struct. Every instance of the member carries the value 0, the one
+        // value that "fits" into zero bits, so that a range check alone would not refuse the document.
+        let Some(Step::Key(member)) = pos.path.last().cloned() else { unreachable!() };
+        let parent_path = &pos.path[..pos.path.len() - 1];
+        let parent_ty = if parent_path.len() == 1 { Some(Ty::Struct(model.primary.clone())) } else { positions.iter().find(|q| q.path == parent_path).map(|q| q.ty.clone()) };
+        if let Some(Ty::Struct(sname)) = parent_ty {
+            let signed = matches!(pos.ty, Ty::Int(_));
+            let bad = if signed { ["int0", "int00", "int4", "int264", "int7"][u.below(5)] } else { ["uint0", "uint00", "uint4", "uint264", "uint1"][u.below(5)] };
+            let instances: Vec<Vec<Step>> = positions
+                .iter()
+                .filter(|q| q.path.last() == Some(&Step::Key(member.clone())) && q.path.len() >= 2 && {
+                    let pp = &q.path[..q.path.len() - 1];
+                    if pp.len() == 1 { pp[0] == Step::Key("message".into()) && model.primary == sname } else { positions.iter().any(|r| r.path == pp && r.ty == Ty::Struct(sname.clone())) }
+                })
+                .map(|q| q.path.clone())
+                .collect();
+            let zero = [J::Num("0".into()), J::Str("0".into()), J::Str("0x0".into())][u.below(3)].clone();
+            for ip in &instances {
+                if let Some(slot) = at(&mut doc, ip) {
+                    *slot = zero.clone();
+                }
+            }
+            if let Some(J::Arr(members)) = at(&mut doc, &[Step::Key("types".into()), Step::Key(sname.clone())]) {
+                for m in members.iter_mut() {
+                    if let J::Obj(kv) = m {
+                        if kv.iter().any(|(k, v)| k == "name" && *v == J::Str(member.clone())) {
+                            for (k, v) in kv.iter_mut() {
+                                if k == "type" {
+                                    *v = J::Str(bad.to_string());
+                                }
+                            }
+                        }
+                    }
+                }
+            }
+            return Case { doc: doc.render_styled(style), model: None, mutation: "undefined-struct-type".into(), ty: bad.to_string(), depth, detail: format!("{sname}.{member} retyped {bad}, all {} instances set to 0", instances.len()), lenient: false };
+        }
     }
     if kind == 13 {
         // one declared member is missing and one undeclared member is present: the property count is right
@@ -486,7 +527,8 @@ fn judge_cli(c: &Case, cls: &mut Classifier) -> Verdict {
         crate::cli::Invocation::new(&["hash", "typeddata", &f]),
         crate::cli::Invocation::new(&["hash", "typeddata", "--message-hash", "-"]).stdin(c.doc.as_bytes()),
     ];
-    for inv in runs {
+    let expected = c.model.as_ref().and_then(td::expected);
+    for (ri, inv) in runs.into_iter().enumerate() {
         let out = crate::cli::run(cli, &inv, std::time::Duration::from_secs(60));
         if out.timed_out {
             return Ok(()); // counted by the caller as inconclusive through the label below
@@ -496,7 +538,16 @@ fn judge_cli(c: &Case, cls: &mut Classifier) -> Verdict {
                 return fail("error exit with empty stdout", out.describe(), format!("`hdwallet {}` on a non-conforming document ({}, {})", inv.args.join(" "), c.mutation, c.detail));
             }
         } else if !out.ok() {
+            if c.lenient && out.ordinary_error() && out.stdout.is_empty() {
+                continue;
+            }
             return fail("success", out.describe(), format!("`hdwallet {}` on a conforming control", inv.args.join(" ")));
+        } else if let (Some((_, mh, dg)), 1 | 2) = (&expected, ri) {
+            // the control's digest / message hash as printed by the executable
+            let want = format!("0x{}\n", hex_lower(if ri == 1 { dg } else { mh }));
+            if !out.stdout_str().eq_ignore_ascii_case(&want) {
+                return fail(want, out.describe(), format!("`hdwallet {}` on a conforming control ({})", inv.args.join(" "), c.detail));
+            }
         }
     }
     let _ = std::fs::remove_file(file);
